@@ -719,6 +719,9 @@ func init() {
 			}
 			ruleFreshResults(c, w, tb, "R11.4", exp)
 			ruleNoConcurrencyPrimitives(c, w, "R11.5", fns)
+			// callers may hand the same buffers to concurrent calls: no operation writes memory reachable from its arguments
+			ruleNoParamWrites(c, w, tb, ef, "R11.6", w.ExportedAPI())
+			ruleRESTStateless(c, w, tb, ef, "R11.REST", true)
 			if w.Cfg.Name == CfgNative.Name {
 				runControl(c, "R11.1", []string{"ControlWritesGlobal|write:otp.cache"}, func(sink *Check, cw *World) {
 					ctb := NewTB(cw)
